@@ -29,10 +29,13 @@ type scen struct {
 	seq         int
 	step        int
 	ops         []string
-	dead        bool // a failure was recorded: stop the scenario (states have diverged)
-	failedReorg bool
-	quietBase   bool // while true, the oracle is not asked for the full dump
-	bulk        bool // long base chains: full observation only every 97th delivery, tip/outcome always
+	dead        bool   // a failure was recorded: stop the scenario (states have diverged)
+	failedReorg bool   // some reorganisation failed during this scenario (histogram only)
+	moveFailed  bool   // the delivery being observed ended in a failed reorganisation (fall-back tip selection ran)
+	note        string // appended to the next property failure's text
+	mixed       bool   // random-mixed-bits stream: makeBlock picks light / heavy difficulty bits per block
+	quietBase   bool   // while true, the oracle is not asked for the full dump
+	bulk        bool   // long base chains: full observation only every 97th delivery, tip/outcome always
 
 	keys   map[string]*chainkit.Key
 	badTx  map[[32]byte]bool // txids whose scripts fail (generator's label)
@@ -45,7 +48,14 @@ type scen struct {
 var defaultMalloc = utxo.Memory_Malloc
 var defaultFree = utxo.Memory_Free
 
-func newScen(name string, alloc bool, sub uint64, size int, opts chainkit.Opts) *scen {
+// heavyBits: 4.0000014 times the work of chainkit.EasyBits per block (mining costs ~8 hashes)
+const heavyBits = 0x201fffff
+
+// newScen opens a fresh synthetic chain. genesisBits != 0 is written into the genesis node's header: under the
+// testnet rule of GetNextWorkRequired a block more than 20 minutes after its parent gets the minimum difficulty
+// (EasyBits), any other block the bits of the last non-minimum block — walking back to the genesis node. That gives
+// branches with different bits (heavier-but-not-taller forks) above a 100-block base.
+func newScen(name string, alloc bool, sub uint64, size int, opts chainkit.Opts, genesisBits uint32) *scen {
 	s := &scen{name: name, alloc: alloc, sub: sub, size: size, g: vlib.NewRng(sub ^ 0xC06), byHash: map[[32]byte]*rBlock{},
 		keys: map[string]*chainkit.Key{}, badTx: map[[32]byte]bool{}, opts: opts}
 	if alloc {
@@ -65,6 +75,9 @@ func newScen(name string, alloc bool, sub uint64, size int, opts chainkit.Opts) 
 	// compaction, one map per call) brings them to their real size — otherwise every dump walks 25M empty slots
 	for i := 0; i < 256; i++ {
 		k.Ch.Unspent.DefragMap(true)
+	}
+	if genesisBits != 0 {
+		binary.LittleEndian.PutUint32(k.Ch.BlockTreeRoot.BlockHeader[72:76], genesisBits)
 	}
 	gen := &rBlock{idx: 0, Hash: k.Genesis.Hash, node: k.Ch.BlockTreeRoot, firstSeen: -1, delivered: true, label: "genesis"}
 	gen.Bits = k.Ch.BlockTreeRoot.Bits()
@@ -108,6 +121,7 @@ func (s *scen) propFail(key, what string) {
 		return
 	}
 	s.dead = true
+	what += s.note
 	r.PropFail(key, fmt.Sprintf("[%s alloc=%v subseed=%d step %d] %s", s.name, s.alloc, s.sub, s.step, what), s.doc(what))
 }
 
@@ -125,6 +139,7 @@ type blockOpts struct {
 	txs     []*btc.Tx
 	cbOuts  []chainkit.OutSpec // nil: one OP_TRUE output of subsidy+fees
 	time    uint32
+	light   bool // time = parent + 1201 s: minimum-difficulty block under the testnet rule
 	cbExtra []byte
 	label   string
 }
@@ -132,6 +147,9 @@ type blockOpts struct {
 func (s *scen) addBlock(parent *rBlock, bo blockOpts) *rBlock {
 	var fees uint64
 	eval(parent)
+	if bo.light && bo.time == 0 {
+		bo.time = parent.node.Timestamp() + 1201
+	}
 	spec := chainkit.BlockSpec{Parent: parent.node, Txs: bo.txs, CoinbaseOuts: bo.cbOuts, Time: bo.time, CoinbaseExtra: bo.cbExtra}
 	if bo.cbOuts == nil {
 		// fees of the transactions in the context of the parent's branch (0 when not computable)
@@ -208,6 +226,43 @@ func (s *scen) coinOf(op outpoint, c rCoin) *chainkit.Coin {
 }
 
 var trapScript = []byte{0x00} // OP_0: leaves an empty (false) top element — can never be spent
+
+// Outputs locked by a rule that the node switches on by block HEIGHT. The harness spends them with an empty scriptSig,
+// no witness, lock time 0 and sequence 0xffffffff, which fails under the rule and passes without it:
+var cltvScript = []byte{0x04, 0xff, 0xff, 0xff, 0x7f, 0xb1, 0x75, 0x51} // <0x7fffffff> OP_CHECKLOCKTIMEVERIFY OP_DROP OP_1 (BIP65; OP_NOP2 before)
+var csvScript = []byte{0x51, 0xb2, 0x75, 0x51}                          // <1> OP_CHECKSEQUENCEVERIFY OP_DROP OP_1 (BIP112; OP_NOP3 before)
+
+// witScript: a P2WPKH program nobody has the key for (BIP141: an empty witness fails; before, the 20-byte push is a true top element)
+func (s *scen) witScript() []byte {
+	h := s.g.Bytes(20)
+	h[0] |= 1
+	return append([]byte{0x00, 20}, h...)
+}
+
+func (s *scen) gatedScript() []byte {
+	switch s.g.Intn(3) {
+	case 0:
+		return cltvScript
+	case 1:
+		return csvScript
+	}
+	return s.witScript()
+}
+
+// scriptClass: "" for scripts that valid transactions of the generator spend; otherwise the invalid block kind that spends it.
+func scriptClass(scr []byte) string {
+	switch {
+	case len(scr) == 1 && scr[0] == 0x00:
+		return "script"
+	case string(scr) == string(cltvScript):
+		return "cltv"
+	case string(scr) == string(csvScript):
+		return "csv"
+	case len(scr) == 22 && scr[0] == 0x00 && scr[1] == 20:
+		return "wit-empty"
+	}
+	return ""
+}
 
 // ---------------------------------------------------------------------------------------- steps
 
@@ -348,23 +403,52 @@ func (s *scen) observe(kind, outcome, modelReply string, fullDump bool) {
 	eval(tb)
 	if tb != want {
 		eval(want)
+		// for the report only: does the Lean model (which mirrors the code as written) predict this tip?
+		if mf := strings.Fields(modelReply); len(mf) == 5 && mf[1] == tipHex {
+			s.note = " [the Lean model of the code predicts the same tip]"
+		} else if len(mf) == 5 {
+			s.note = " [the Lean model of the code predicts another tip: " + firstN(mf[1], 16) + "]"
+		}
 		switch {
 		case !tb.valid:
 			s.propFail("tip-invalid", fmt.Sprintf("tip is block #%d (height %d) whose branch is invalid (%s); best valid is #%d", tb.idx, tb.Height, tb.why, want.idx))
 		case tb.work.Cmp(want.work) == 0:
-			key := "tie-not-first-seen"
-			if s.failedReorg {
-				key = "tie-not-first-seen-after-failed-reorg"
-			} else if tb.Bits != want.Bits {
-				key = "float-work-exact-tie" // branches with different bits: the float64 sums of MorePOW are not exact
+			// The known deviations are kept as narrow as they are documented: (1) a delivery whose reorganisation
+			// FAILED ends on the documented fall-back choice (first child's subtree at every fork) and that is not the
+			// first-seen leaf; (2) the two sides carry different bits, so the code's float64 sums of equal exact sums
+			// may differ in the last digit. Any other tie resolved against the first-seen block is a violation.
+			key, extra := "tie-not-first-seen", ""
+			if s.moveFailed {
+				key = "tie-wrong-choice-after-failed-reorg"
+				d, _ := fallbackChoice(s.blocks)
+				extra = fmt.Sprintf("; the documented fall-back choice after a failed reorganisation is #%d", d.idx)
+				if tb == d {
+					key, extra = "tie-not-first-seen-after-failed-reorg", ""
+				} else if mixedBits(tb, want) || mixedBits(tb, d) {
+					key = "float-work-exact-tie"
+				}
+			} else if mixedBits(tb, want) {
+				key = "float-work-exact-tie"
 			}
-			s.propFail(key, fmt.Sprintf("tip is block #%d (height %d, first seen at delivery %d) although #%d with the same cumulative work was seen first (delivery %d)", tb.idx, tb.Height, tb.firstSeen, want.idx, want.firstSeen))
+			s.propFail(key, fmt.Sprintf("tip is block #%d (height %d, first seen at delivery %d) although #%d with the same cumulative work was seen first (delivery %d)%s", tb.idx, tb.Height, tb.firstSeen, want.idx, want.firstSeen, extra))
 		default:
-			key := "not-most-work"
+			key, extra := "not-most-work", ""
 			if forkPoint(tb, want).Parent == nil {
 				key = "not-most-work-fork-at-genesis"
+			} else if s.moveFailed && mixedBits(tb, want) {
+				// the fall-back after a failed reorganisation values a leaf by the work of the blocks ABOVE it only
+				d, top := fallbackChoice(s.blocks)
+				hit := tb == d
+				for _, l := range top {
+					if l == tb && mixedBits(tb, d) { // equal exact values, sides with different bits: float rounding decides
+						hit = true
+					}
+				}
+				if hit {
+					key, extra = "farthest-ignores-leaf-work", " (fall-back after a failed reorganisation: a leaf's own work is not counted)"
+				}
 			}
-			s.propFail(key, fmt.Sprintf("tip is block #%d (height %d, work %s) although the valid branch ending in #%d (height %d) has work %s", tb.idx, tb.Height, tb.work.FloatString(12), want.idx, want.Height, want.work.FloatString(12)))
+			s.propFail(key, fmt.Sprintf("tip is block #%d (height %d, work %s) although the valid branch ending in #%d (height %d) has work %s%s", tb.idx, tb.Height, tb.work.FloatString(12), want.idx, want.Height, want.work.FloatString(12), extra))
 		}
 		return
 	}
@@ -421,15 +505,33 @@ func (s *scen) deliver(b *rBlock) string {
 		return ""
 	}
 	s.step++
+	prevTip, prevH := s.k.Tip()
 	res := s.k.Submit(b.raw)
 	out := realOutcome(res)
-	s.ops = append(s.ops, fmt.Sprintf("deliver #%d h=%d parent=#%d %s -> %s", b.idx, b.Height, b.Parent.idx, b.label, out))
+	if nt, nh := s.k.Tip(); out == "ok" && nt == hex.EncodeToString(b.Hash[:]) && hex.EncodeToString(b.Parent.Hash[:]) != prevTip {
+		switch {
+		case nh < prevH:
+			r.Hit("reorg/to-shorter-heavier-branch")
+		case nh == prevH:
+			r.Hit("reorg/to-equal-height-heavier-branch")
+		default:
+			r.Hit("reorg/to-taller-branch")
+		}
+	} else if out == "ok" && nt == prevTip && b.Height > prevH {
+		r.Hit("side-block/taller-but-lighter-stays-aside")
+	}
+	tipIdx := -1
+	if x := s.byHash[s.k.Ch.LastBlock().BlockHash.Hash]; x != nil {
+		tipIdx = x.idx
+	}
+	s.ops = append(s.ops, fmt.Sprintf("deliver #%d h=%d parent=#%d %s bits=%08x -> %s (tip #%d)", b.idx, b.Height, b.Parent.idx, b.label, b.Bits, out, tipIdx))
 	// what the node now knows (independent of its answer)
 	if b.firstSeen < 0 && (b.Parent.Parent == nil || b.Parent.firstSeen >= 0) {
 		b.firstSeen = s.seq
 	}
 	s.seq++
-	if out == "movefailed" {
+	s.moveFailed = out == "movefailed"
+	if s.moveFailed {
 		s.failedReorg = true
 	}
 	full := !s.quietBase
@@ -458,6 +560,7 @@ func (s *scen) idle() {
 		return
 	}
 	s.step++
+	s.moveFailed = false
 	s.ops = append(s.ops, "idle")
 	pan := ""
 	func() {
@@ -607,6 +710,7 @@ func (s *scen) defrag() {
 		return
 	}
 	s.step++
+	s.moveFailed = false
 	s.fragment()
 	cnt := 0
 	pan := ""
